@@ -2149,6 +2149,20 @@ fn main() {
         }
         return;
     }
+    if argv.len() >= 3 && argv[1] == "--where" {
+        // developer aid: one compact line per script (separated by "\n---\n"): where things are reported
+        let src = std::fs::read_to_string(&argv[2]).unwrap();
+        for (i, part) in src.split("\n---\n").enumerate() {
+            let r = match run_real(part) {
+                Real::Ok { stdout } => format!("ok stdout={stdout:?}"),
+                Real::Compile { span, rendered } => format!("compile {} {:?}", ospan_s(&span), rendered.map(|t| t.lines().next().unwrap_or("").to_string())),
+                Real::Runtime { message, frames, stdout, .. } => format!("runtime {:?} frames={} stdout={stdout:?}", message, frames.iter().map(ospan_s).collect::<Vec<_>>().join(" ")),
+                Real::Panic(p) => format!("panic {p}"),
+            };
+            println!("#{i}: {r}");
+        }
+        return;
+    }
     if argv.len() >= 3 && argv[1] == "--gen" {
         let mut rng = Rng::new(argv[2].parse().unwrap());
         let p = gen_planted(&mut rng, true);
